@@ -744,6 +744,18 @@ class SimWorld:
         CURRENT = None
         self._installed = False
 
+    def warnings_as_errors(self):
+        """Environment: the application runs with warnings turned into errors
+        (python -W error, PYTHONWARNINGS=error, a test runner configured that
+        way).  In force until the world is uninstalled.  ResourceWarning is
+        left alone (it is issued from finalisers, where it cannot raise)."""
+        for cat in (DeprecationWarning, PendingDeprecationWarning,
+                    FutureWarning, UserWarning, SyntaxWarning,
+                    RuntimeWarning, ImportWarning, UnicodeWarning,
+                    BytesWarning, EncodingWarning):
+            warnings.simplefilter("error", cat)
+        self.probe("warnings-are-errors")
+
     def resource_warnings(self):
         return [str(w.message) for w in self.warnings
                 if issubclass(w.category, ResourceWarning)]
